@@ -122,6 +122,7 @@ def extract_deep_update(path: Path) -> str:
     b = lambda x: 'true' if x else 'false'  # noqa: E731
     return (
         '(* generated by translator/py2coq.py:extract_deep_update from config/core.py — do not edit *)\n'
+        'From Coq Require Import List String.\nImport ListNotations.\n'
         'From AV Require Import lib.Tree model.C18_Model.\n'
         f'Definition deep_update := du_gen {b(flags["g_in"])} {b(flags["g_bd"])} {b(flags["g_vd"])}.\n')
 
@@ -585,7 +586,36 @@ def extract_singleton_protocol(path: Path) -> str:
             raise Untranslatable(f'class {cls} not found')
         mc = [s for s in c2.body if isinstance(s, ast.Assign) and ast.unparse(s.targets[0]) == 'model_config']
         frozen.append(len(mc) == 1 and ast.unparse(mc[0].value).replace(' ', '') == 'ConfigDict(frozen=True)')
+    # the validators as a stage list (VRefuseIfActive / VRegister / VResolve), in source order
+    stages = []
+    for v in validators:
+        vb = [s2 for s2 in strip_doc(v.body) if not isinstance(s2, ast.Global)]
+        atoms = []
+        for node in vb:
+            txt = ast.unparse(node)
+            if isinstance(node, ast.If) and ast.unparse(node.test) == '_config is not None' and 'RuntimeError' in txt:
+                atoms.append('VRefuseIfActive')
+            elif any(isinstance(x, ast.Assign) and any(isinstance(t, ast.Name) and t.id == '_config' for t in x.targets)
+                     for x in ast.walk(node)):
+                atoms.append('VRegister')
+            elif txt == 'return self':
+                continue
+            elif txt == 'self._normalize_path()':
+                continue                      # resolves the search path itself; never raises for missing data files
+            elif 'file_location' in txt:
+                if 'VResolve' not in atoms:
+                    atoms.append('VResolve')  # may raise FileNotFoundError
+            else:
+                raise Untranslatable(f'validator {v.name}: statement not modelled: {txt[:60]}')
+        stages += atoms
+    owners = {'Config': '[]', 'WeatherConfig': '["weather"]', 'EmissionsConfig': '["emissions"]'}
+    fz = dict(zip(['Config', 'WeatherConfig', 'EmissionsConfig'], frozen))
     b = lambda x: 'true' if x else 'false'  # noqa: E731
-    return (f'(* after-validators in order: {", ".join(v.name for v in validators)}; singleton registered in {fn.name} *)\n'
+    frozen_def = ('Definition extracted_frozen (p : list string) : bool :=\n  match p with\n'
+                  + ''.join(f'  | {owners[c]} => {b(fz[c])}\n' for c in owners if owners[c] != '[]')
+                  + f'  | [] => {b(fz["Config"])}\n  | _ => true\n  end.\n')
+    return (f'Definition extracted_stages : list vstage := [{"; ".join(stages)}].\n'
+            'Open Scope string_scope.\n' + frozen_def +
+            f'(* after-validators in order: {", ".join(v.name for v in validators)}; singleton registered in {fn.name} *)\n'
             f'Definition late_registration : bool := {b(late)}.\n'
             f'Definition all_models_frozen : bool := {b(all(frozen))}.\n')
